@@ -18,6 +18,15 @@ os.environ.setdefault("PYTHONHASHSEED", "0")
 
 from vlib.common import MODULES  # noqa: E402
 
+# the process' real standard input is never part of an experiment: whatever the caller left there, code under test
+# that (wrongly) reads it gets an immediate end of file instead of blocking the check
+try:
+    _devnull = os.open(os.devnull, os.O_RDONLY)
+    os.dup2(_devnull, 0)
+    os.close(_devnull)
+except OSError:
+    pass
+
 
 def main():
     ap = argparse.ArgumentParser()
